@@ -39,6 +39,12 @@ def dispatch_atomize(fn, e):
     e = hir.peel(e)
     if hir.is_call(e):
         nm = hir.callee_name(e) or e.get("method")
+        # the configuration answer itself, read directly: `<csi methods>.plus_operator.is_some()`
+        if nm in ("is_some", "is_none") and hir.call_args(e):
+            pl_ = hir.place(hir.call_args(e)[0]) or ""
+            for fld_, at_ in ((".plus_operator", "enabled.plus"), (".tpl_operator", "enabled.tpl")):
+                if pl_.endswith(fld_):
+                    return BF.atom(at_) if nm == "is_some" else BF.neg(BF.atom(at_))
         if nm == "plus_operator_is_enabled":
             return BF.atom("enabled.plus")
         if nm == "tpl_operator_is_enabled":
@@ -326,6 +332,17 @@ def rule_arrow_block(check):
                         os_ = pva.origins(f, fld["e"])
                         if os_ and all(r_[0] == "param" and p_ and str(p_[0]).split(".")[-1] == "body" for r_, p_ in os_):
                             ok = True
+        if not ok:
+            # the return statement is built by a helper: what the helper returns, seen from this function
+            for g_ in prog.flat(f, 2):
+                if g_ is f:
+                    continue
+                for r in [m for m in hir.walk(g_.body) if m.get("k") == "Struct" and (m["res"].get("path") or "").endswith("ReturnStmt")]:
+                    for fld in r["fields"]:
+                        if fld["name"] == "arg":
+                            os_ = pva.origins_upto(f, g_, fld["e"])
+                            if os_ and all(r_[0] == "param" and r_[1] == f.def_path and p_ and str(p_[0]).split(".")[-1] == "body" for r_, p_ in os_):
+                                ok = True
         check.expect(ok, R, R + "/return-arg", hir.loc(n), "the block returns the former expression body", "the new block does not return the former arrow body")
     # every non-modified return happens when the body is not an expression
     rets_nm = [n for n in hir.calls_in(f.body, name="not_modified")]
@@ -563,9 +580,9 @@ def rule_optchain_shape(check):
     f = ov[0]
     sets = [x for x in f.nodes() if x.get("k") == "Assign" and (hir.place(x["l"]) or "").endswith(".found") and hir.lit_value(x["r"]) is True]
     check.floor(R, "lowering start sites", len(sets), 1)
-    for x in sets:
+    def kinds_of(fn_, conds, depth=0):
         kinds = []
-        for c in f.conds_at(x):
+        for c in conds:
             t = c["t"]
             if t == "pat" and c["v"]:
                 v = hir.pat_variant(c["pat"])
@@ -577,6 +594,7 @@ def rule_optchain_shape(check):
             elif t == "bool":
                 e = hir.peel(c["e"])
                 p = hir.place(e)
+                h_ = prog.resolve_local(e) if hir.is_call(e) and e.get("callee") else None
                 if p and p.endswith(".found") and c["v"] is False:
                     kinds.append("!found")
                 elif p and p.endswith(".optional") and c["v"] is False:
@@ -584,12 +602,37 @@ def rule_optchain_shape(check):
                 elif hir.is_call(e) and hir.callee_name(e) == "is_some" and c["v"]:
                     inner = hir.peel(hir.call_args(e)[0])
                     kinds.append("configured" if hir.is_call(inner) and hir.callee_name(inner) == "get" else "unknown:" + hir.describe(e))
+                elif h_ is not None and h_.body is not None and (h_.rec.get("ret") or "") == "bool" and c["v"] and depth < 2:
+                    # a named predicate: the conditions of its one path that can answer true
+                    yes = []
+                    for pc, pv_ in hir.decision_paths(h_.body):
+                        if pv_ is None or hir.lit_value(hir.peel(pv_)) is False:
+                            continue
+                        recs = []
+                        for ce, cv in pc:
+                            if ce.get("k") == "PatCond":
+                                recs.append({"t": "pat", "pat": ce["pat"], "scrut": ce["scrut"], "v": cv})
+                            elif ce.get("k") == "ArmNot":
+                                recs.append({"t": "arm_not", "pat": ce["pat"], "scrut": ce["scrut"], "guard": ce.get("guard"), "v": cv})
+                            else:
+                                recs += hir.split_cond(ce, cv)
+                        if hir.lit_value(hir.peel(pv_)) is not True:
+                            recs += hir.split_cond(pv_, True)
+                        yes.append(recs)
+                    if len(yes) == 1:
+                        kinds += kinds_of(h_, yes[0], depth + 1)
+                    else:
+                        kinds.append("unknown:" + hir.cond_str(c))
                 else:
                     kinds.append("unknown:" + hir.cond_str(c))
             elif t in ("closure",):
                 continue
             else:
                 kinds.append("unknown:" + t)
+        return kinds
+
+    for x in sets:
+        kinds = kinds_of(f, f.conds_at(x))
         want = ["matches Expr::OptChain", "!found", "!optional", "matches OptChainBase::Call", "matches Expr::OptChain", "matches OptChainBase::Member", "matches MemberProp::Ident", "configured"]
         extra = [k for k in kinds if k.startswith("unknown:")]
         check.expect(sorted(kinds) == sorted(want) and not extra, R, R + "/start-conditions", hir.loc(x), "lowering starts under exactly {%s}" % ", ".join(want), "the optional-chain lowering starts under {%s}: `recv?.m(..)` calls of configured methods are skipped or other shapes are lowered" % ", ".join(kinds))
@@ -786,8 +829,22 @@ def rule_apply_args(check):
                 x = hir.peel(x["recv"])
             full = chain == ["iter"] and (hir.place(x) or "").endswith(".elems")
             cl = hir.peel(hir.call_args(alls[0])[1])
-            called = {hir.callee_name(y) or y.get("method") for y in hir.walk(cl.get("body", {})) if hir.is_call(y)}
-            pure = called <= {"is_none", "is_some", "as_ref", "unwrap", "is_lit", "is_undefined_or_null", "is_some_and", "map_or", "not"}
+            def _called(node, depth=0):
+                """names called by the element test; crate predicates (bool results, shared borrows only) are opened"""
+                out_ = set()
+                for y in hir.walk(node):
+                    if not hir.is_call(y) and not (y.get("k") == "Path" and y.get("callee")):
+                        continue
+                    h_ = prog.resolve_local(y)
+                    nm_ = hir.callee_name(y) or y.get("method") or (y.get("callee") or {}).get("name")
+                    if h_ is not None and h_.body is not None and depth < 3 and nm_ != "is_undefined_or_null" and (h_.rec.get("ret") or "") == "bool" and not any("&mut" in (p_.get("ty") or "") for p_ in h_.rec.get("params", [])):
+                        out_ |= _called(h_.body, depth + 1)
+                    else:
+                        out_.add(nm_)
+                return out_
+
+            called = _called(cl.get("body", {}) if cl.get("k") == "Closure" else cl)
+            pure = called <= {"is_none", "is_some", "as_ref", "unwrap", "is_lit", "is_undefined_or_null", "is_some_and", "is_none_or", "map_or", "not", "is_ident_ref_to", None}
         ok = on_array and this_lit and len(alls) == 1 and full and pure and len(conj) == 2
         why = []
         if not on_array:
